@@ -4484,7 +4484,7 @@ func (op *op) apply(b *Bitmap) (changed bool) {
 
 // WriteTo writes op to the w.
 func (op *op) WriteTo(w io.Writer) (n int64, err error) {
-	buf := make([]byte, op.encodeSize())
+	buf := make([]byte, op.encodeSize(), op.encodeSize()+len(op.roaring))
 
 	// Write type and value.
 	buf[0] = byte(op.typ)
@@ -4514,17 +4514,14 @@ func (op *op) WriteTo(w io.Writer) (n int64, err error) {
 	}
 	binary.LittleEndian.PutUint32(buf[9:13], h.Sum32())
 
-	// Write to writer.
-	nn, err := w.Write(buf)
-	if err != nil {
-		return int64(nn), err
-	}
+	// Write to writer. Header and roaring data go out in a single Write: the
+	// writer is the fragment's data file, and a process that dies between two
+	// writes would leave a header without its data at the end of the op log,
+	// which unmarshalPilosaRoaring refuses to read.
 	if op.typ == 4 || op.typ == 5 {
-		var nn2 int
-		// separate write so we don't have to copy the whole thing
-		nn2, err = w.Write(op.roaring)
-		nn += nn2
+		buf = append(buf, op.roaring...)
 	}
+	nn, err := w.Write(buf)
 	return int64(nn), err
 }
 
